@@ -559,7 +559,7 @@ impl Kernel {
             );
         }
         if bufsel {
-            if !self.rings[r].pbufs.contains_key(&sqe.buf_group()) {
+            if !self.rings[r].pbufs.contains_key(&sqe.buf_group()) && !self.cfg.foreign_groups {
                 violation(
                     "pool.bad-entry",
                     format!("{name}: buffer group is not registered"),
